@@ -6,12 +6,9 @@
   node paths occurring in them.  Used by C04 (`C04_traversals_live`).
 -/
 import XotModel.Lemmas.Axes
+import XotModel.Model.AxesChildLists
 
 namespace XotModel.Axes
-
-/-- `NamespaceAdapter::children` / the namespace nodes of `p`: `all_children.take_while(= Namespace)`. -/
-def namespaceNodes (t : Tree) (p : Path) : List Path :=
-  ((allChildren t p).takeWhile (fun x => itemCategory x == .namespace)).map (·.1)
 
 /-- The node-returning entry points. -/
 inductive Trav where
